@@ -216,7 +216,14 @@ class Check:
                             "backend": ob.result.backend, "seconds": round(ob.result.seconds, 3),
                             "claim": str(ob.claim)[:400], "n_assumptions": len(ob.assumptions)})
         mod = self.mod
+        # the level recorded is the level claimed for this property in MANIFEST.json (regenerated by
+        # tools/gen_manifest.py: the module's LEVEL, lowered to "other" while a recorded finding is open), and
+        # "proof" only when every obligation of THIS run was discharged; a run that falls short says "other"
+        # (and exits non-zero unless what fell short is exactly a listed known finding)
         level = getattr(mod, "LEVEL", "proof")
+        for c in load_json(os.path.join(VERIF, "MANIFEST.json"), {}).get("checks", []):
+            if c.get("property_id") == self.prop:
+                level = c.get("level_claimed", {}).get("category", level)
         if self.known_seen or n_proved < n_cl or self.violations:
             level_out = "other"
         else:
